@@ -133,3 +133,24 @@ pub fn create_concurrent_immix_mutator<VM: VMBinding>(
 
     mutator
 }
+
+/// Verification hook: take the mutator-local SATB buffer of a ConcurrentImmix mutator
+/// (`None` if the mutator's barrier is not the ConcurrentImmix SATB barrier).
+#[cfg(feature = "mmtk_verif")]
+pub(crate) fn verif_take_satb<VM: VMBinding>(
+    mutator: &mut Mutator<VM>,
+) -> Option<Vec<crate::util::ObjectReference>> {
+    mutator
+        .barrier
+        .downcast_mut::<BarrierType<VM>>()
+        .map(|b| b.verif_semantics_mut().verif_take_satb())
+}
+
+/// Verification hook: number of entries in the mutator-local SATB buffer.
+#[cfg(feature = "mmtk_verif")]
+pub(crate) fn verif_satb_len<VM: VMBinding>(mutator: &mut Mutator<VM>) -> Option<usize> {
+    mutator
+        .barrier
+        .downcast_mut::<BarrierType<VM>>()
+        .map(|b| b.verif_semantics_mut().verif_satb_len())
+}
